@@ -1,21 +1,14 @@
-"""per-property configuration of ./chk"""
+"""per-property configuration of ./chk: one JSON file per claimed property in tools/props.d/"""
+import json, os, glob
+HERE = os.path.dirname(os.path.abspath(__file__))
 COMMON_TRUSTED = [
     "Coq 8.16.1 kernel incl. vm_compute (model evaluation, closed witnesses); native_compute not used",
     "no axioms declared by the development; Print Assumptions output audited on every run",
     "the correspondence harness (generators, canonicalisation to integer lists, comparison in ./chk)",
     "rustc/cargo, SQLite/SQLCipher, serde/bincode, ed25519-dalek, blake3, tokio: not modelled",
 ]
-HOOK_COMMITS = ["ebc69a8", "3bfbf5e", "b9adf20"]
-NOT_CLAIMED = {}
-P = {
- "C01": {
-    "bin": "c01", "run_module": "Run_C01", "eval_fn": "eval_C01", "run_fn": "run_C01",
-    "targets": [],
-    "level_text": "Coq theorems, unbounded in the room history and the operation tree: (1) the Room built by room.rs' add_* functions from any entry sequence decides exactly what the accepted history grants (refinement to a date-based spec), (2) an accepted mutation / deletion only touches rows for which that spec grants the needed right in the room entered and the room left, never authorisation rows, whole request or nothing. Tied to the code by 1200 (quick) / 12000 (thorough) differential cases per run: decision matrices of real Room values, real validate_entity_mutation and validate_deletion verdicts, each compared with the model and judged by the spec oracle evaluated in Coq.",
-    "level_note": "Model (Rights.v, Authz.v) is hand-written and tied by differential runs, not extracted; keys/entities/ids are abstract indices; parsing of request text into InsertEntity/DeletionQuery and the SQL writes are not modelled (room-definition mutations: see C07/C10/C12). No axioms.",
-    "technique": "Coq refinement proof (room decisions = date-based grant spec) + invariant over the mutation tree; differential correspondence vs room.rs / authorisation_service.rs",
-    "trusted_base": ["hand-written model Rights.v/Authz.v of room.rs and authorisation_service.rs validate_*; tied by differential runs (decision matrices, validate_entity_mutation, validate_deletion)"],
-    "assumptions": ["rights are evaluated on abstract keys/entities/uids (indices); request parsing into InsertEntity/DeletionQuery is exercised end-to-end only in the thorough tier"],
-    "rule": "random room histories (sorted and unsorted dates, ties, refused entries), decision probes at entry dates +-1ms; InsertEntity trees (depth<=2) and DeletionQuery values over 2-3 rooms; distinct = different (kind, observation, class)",
- },
-}
+HOOK_COMMITS = json.load(open(os.path.join(HERE, "hook_commits.json")))
+NOT_CLAIMED = json.load(open(os.path.join(HERE, "not_claimed.json")))
+P = {}
+for f in sorted(glob.glob(os.path.join(HERE, "props.d", "C*.json"))):
+    P[os.path.basename(f)[:-5]] = json.load(open(f))
